@@ -175,6 +175,397 @@ class _Subst(ast.NodeTransformer):
         return n
 
 
+class _Prune(ast.NodeTransformer):
+    """Branches decided by a constant argument bound at inlining (a helper
+    shared by two callers and told apart by a mode flag): `if False:`,
+    `a if True else b`, `False and x`, `not True`.  Only leading constants
+    of and/or chains are folded (the others are evaluated after an operand
+    that may have effects, and decide the value only in boolean context)."""
+
+    @staticmethod
+    def _const(e):
+        if isinstance(e, ast.Constant) and (e.value is None or isinstance(
+                e.value, (bool, int, str, bytes))):
+            return True, bool(e.value)
+        return False, None
+
+    def visit_UnaryOp(self, n):
+        self.generic_visit(n)
+        if isinstance(n.op, ast.Not):
+            k, v = self._const(n.operand)
+            if k:
+                return ast.copy_location(ast.Constant(value=not v), n)
+        return n
+
+    def visit_BoolOp(self, n):
+        self.generic_visit(n)
+        out = list(n.values)
+        while out:
+            k, b = self._const(out[0])
+            if not k:
+                break
+            if b != isinstance(n.op, ast.And) or len(out) == 1:
+                return out[0]       # decides the chain / is all that is left
+            out.pop(0)
+        if len(out) == 1:
+            return out[0]
+        n.values = out
+        return n
+
+    def visit_IfExp(self, n):
+        self.generic_visit(n)
+        k, b = self._const(n.test)
+        if k:
+            return n.body if b else n.orelse
+        return n
+
+    def visit_If(self, n):
+        self.generic_visit(n)
+        k, b = self._const(n.test)
+        if k:
+            return (n.body if b else n.orelse) or None
+        return n
+
+    def visit_FunctionDef(self, n):
+        return n        # nested definitions are left alone
+
+    visit_AsyncFunctionDef = visit_Lambda = visit_FunctionDef
+
+
+def _prune(stmts, at):
+    """stmts with constant-decided branches removed (never empty)."""
+    m = ast.Module(body=list(stmts), type_ignores=[])
+    m = _Prune().visit(m)
+    for n in ast.walk(m):
+        for fld in ('body',):
+            b = getattr(n, fld, None)
+            if isinstance(b, list) and not b and not isinstance(
+                    n, ast.Module):
+                b.append(_pass(at))
+        if isinstance(n, ast.Try):
+            for hd in n.handlers:
+                if not hd.body:
+                    hd.body.append(_pass(at))
+    return m.body or [_pass(at)]
+
+
+# ----------------------------------------------------------------------
+# `TABLE[<truth value>]` for a module-level dict literal whose keys are
+# exactly True and False ("pick by role") is the conditional expression it
+# stands for.
+
+def _truth_test(e, fn=None):
+    """The expression whose truth selects the entry, when `e` is certainly
+    a bool; None otherwise."""
+    if isinstance(e, ast.Name) and fn is not None:
+        # a local assigned once, from a truth value
+        asg = [x for x in _own_walk(fn) if isinstance(x, ast.Name) and
+               x.id == e.id and isinstance(x.ctx, (ast.Store, ast.Del))]
+        val = [x.value for x in _own_walk(fn) if isinstance(x, ast.Assign)
+               and len(x.targets) == 1 and x.targets[0] in asg]
+        if len(asg) == 1 and val and e.id not in {
+                a.arg for a in ast.walk(fn.args) if isinstance(a, ast.arg)} \
+                and _truth_test(val[0]) is not None:
+            return e
+        return None
+    if isinstance(e, ast.Call) and isinstance(e.func, ast.Name) and \
+            e.func.id == 'bool' and len(e.args) == 1 and not e.keywords:
+        return e.args[0]
+    if isinstance(e, ast.Compare):
+        return e
+    if isinstance(e, ast.UnaryOp) and isinstance(e.op, ast.Not):
+        return e
+    if isinstance(e, ast.BoolOp) and all(
+            _truth_test(v) is not None and not (
+                isinstance(v, ast.Call)) for v in e.values):
+        return e
+    if isinstance(e, ast.Call) and isinstance(e.func, ast.Name) and \
+            e.func.id in ('isinstance', 'callable'):
+        return e
+    return None
+
+
+def bool_tables(trees):
+    tables = {}
+    seen = {}
+    for tree in trees.values():
+        stores = {}
+        touched = set()
+        for n in ast.walk(tree):
+            if isinstance(n, ast.Name) and isinstance(n.ctx, (ast.Store,
+                                                               ast.Del)):
+                stores[n.id] = stores.get(n.id, 0) + 1
+            elif isinstance(n, ast.Global):
+                for x in n.names:
+                    stores[x] = stores.get(x, 0) + 2
+            elif isinstance(n, ast.Subscript) and isinstance(
+                    n.ctx, (ast.Store, ast.Del)) and \
+                    isinstance(n.value, ast.Name):
+                touched.add(n.value.id)
+            elif isinstance(n, ast.Attribute) and isinstance(
+                    n.value, ast.Name):
+                touched.add(n.value.id)     # TABLE.update(...), .pop ...
+        for st in tree.body:
+            if isinstance(st, ast.Assign) and len(st.targets) == 1 and \
+                    isinstance(st.targets[0], ast.Name) and \
+                    isinstance(st.value, ast.Dict) and \
+                    len(st.value.keys) == 2:
+                nm = st.targets[0].id
+                ks = st.value.keys
+                if not all(isinstance(k, ast.Constant) and
+                           isinstance(k.value, bool) for k in ks) or \
+                        ks[0].value == ks[1].value:
+                    continue
+                if stores.get(nm) != 1 or nm in touched:
+                    continue
+                if not all(isinstance(v, (ast.Name, ast.Attribute,
+                                          ast.Constant))
+                           for v in st.value.values):
+                    continue
+                seen[nm] = seen.get(nm, 0) + 1
+                tables[nm] = {k.value: v for k, v in zip(ks, st.value.values)}
+            elif isinstance(st, (ast.Assign, ast.AugAssign, ast.AnnAssign)):
+                pass
+        for nm in stores:
+            if nm in tables and stores[nm] != 1:
+                seen[nm] = 2
+    tables = {k: v for k, v in tables.items() if seen.get(k) == 1}
+    if not tables:
+        return 0
+    count = [0]
+
+    class T(ast.NodeTransformer):
+        fn = None
+
+        def visit_FunctionDef(self, node):
+            outer, self.fn = self.fn, node
+            self.generic_visit(node)
+            self.fn = outer
+            return node
+
+        visit_AsyncFunctionDef = visit_FunctionDef
+
+        def visit_Subscript(self, node):
+            self.generic_visit(node)
+            if isinstance(node.ctx, ast.Load) and \
+                    isinstance(node.value, ast.Name) and \
+                    node.value.id in tables:
+                test = _truth_test(node.slice, self.fn)
+                if test is not None:
+                    t = tables[node.value.id]
+                    count[0] += 1
+                    new = ast.IfExp(test=test, body=copy.deepcopy(t[True]),
+                                    orelse=copy.deepcopy(t[False]))
+                    ast.copy_location(new, node)
+                    ast.fix_missing_locations(new)
+                    f = getattr(node, '_file', None)
+                    for x in ast.walk(new):
+                        if getattr(x, '_file', None) is None:
+                            _setfile(x, f)
+                    return new
+            return node
+    for tree in trees.values():
+        T().visit(tree)
+    return count[0]
+
+
+# ----------------------------------------------------------------------
+# A local that merely names an attribute chain or a bound method for the
+# rest of the function (`streams = self.streams`, `append = out.append`,
+# `limit = self.max_outbound_frame_size`) is replaced by what it names, when
+# nothing the function does can rebind an attribute of the chain.  Aliases
+# the pinned tree has itself are left alone (the rules know them).
+
+def _chain(e):
+    """(root name, [attrs]) of a pure attribute chain, or None."""
+    attrs = []
+    while isinstance(e, ast.Attribute):
+        attrs.append(e.attr)
+        e = e.value
+    if isinstance(e, ast.Name) and attrs:
+        return e.id, attrs[::-1]
+    return None
+
+
+def inline_aliases(trees):
+    pinned = load_pinned()['functions']
+    by_name = {}
+    props = set()
+    quals = []
+    for mname, tree in trees.items():
+        for st in tree.body:
+            if isinstance(st, (ast.FunctionDef, ast.AsyncFunctionDef)):
+                quals.append(('%s.%s' % (mname, st.name), st))
+            elif isinstance(st, ast.ClassDef):
+                for s2 in st.body:
+                    if isinstance(s2, (ast.FunctionDef,
+                                       ast.AsyncFunctionDef)):
+                        quals.append(('%s.%s.%s' % (mname, st.name, s2.name),
+                                      s2))
+    for q, fn in quals:
+        by_name.setdefault(fn.name, []).append(fn)
+        if any(_dec(d) in ('property', 'setter', 'cached_property')
+               for d in fn.decorator_list):
+            props.add(fn.name)
+    direct = {}
+    for q, fn in quals:
+        stores, calls = set(), set()
+        local_names = {a.arg for a in ast.walk(fn) if isinstance(a, ast.arg)}
+        local_names |= {n.id for n in ast.walk(fn) if isinstance(n, ast.Name)
+                        and isinstance(n.ctx, ast.Store)}
+        for n in ast.walk(fn):
+            if isinstance(n, ast.Attribute) and isinstance(
+                    n.ctx, (ast.Store, ast.Del)):
+                stores.add(n.attr)
+            elif isinstance(n, ast.Call):
+                f = n.func
+                if isinstance(f, ast.Name):
+                    if f.id in local_names:
+                        # a callee held in a variable: unknown, unless the
+                        # variable only names a bound method
+                        asg = [x for x in ast.walk(fn)
+                               if isinstance(x, ast.Name) and x.id == f.id
+                               and isinstance(x.ctx, (ast.Store, ast.Del))]
+                        val = [x.value for x in ast.walk(fn)
+                               if isinstance(x, ast.Assign) and
+                               len(x.targets) == 1 and
+                               x.targets[0] in asg]
+                        ch = _chain(val[0]) if len(asg) == 1 and val and \
+                            f.id not in {a.arg for a in ast.walk(fn)
+                                         if isinstance(a, ast.arg)} else None
+                        if ch is None:
+                            stores.add('*')
+                        else:
+                            calls.add(ch[1][-1])
+                    calls.add(f.id)
+                elif isinstance(f, ast.Attribute):
+                    calls.add(f.attr)
+                else:
+                    stores.add('*')
+        if any(isinstance(n, ast.Call) and isinstance(n.func, ast.Name) and
+               n.func.id in ('setattr', 'delattr') for n in ast.walk(fn)):
+            stores.add('*')
+        direct[id(fn)] = (stores, calls)
+    memo = {}
+
+    def writes(name, seen):
+        if name in memo:
+            return memo[name]
+        if name in seen:
+            return set()
+        seen = seen | {name}
+        out = set()
+        for fn in by_name.get(name, ()):
+            s, c = direct[id(fn)]
+            out |= s
+            for x in c:
+                out |= writes(x, seen)
+        if len(seen) == 1:
+            memo[name] = out
+        return out
+    n_done = 0
+    for q, fn in quals:
+        pin = pinned.get(q)
+        pinned_stmts = set()
+        if pin and pin.get('src'):
+            try:
+                import textwrap
+                pt = ast.parse(textwrap.dedent(pin['src']))
+                for n in ast.walk(pt):
+                    if isinstance(n, ast.Assign):
+                        pinned_stmts.add(ast.unparse(n))
+            except SyntaxError:
+                pass
+        params = {a.arg for a in fn.args.args + fn.args.kwonlyargs +
+                  fn.args.posonlyargs}
+        if fn.args.vararg:
+            params.add(fn.args.vararg.arg)
+        if fn.args.kwarg:
+            params.add(fn.args.kwarg.arg)
+        stores = {}
+        declared = set()
+        for n in _own_walk(fn):
+            if isinstance(n, ast.Name) and isinstance(
+                    n.ctx, (ast.Store, ast.Del)):
+                stores[n.id] = stores.get(n.id, 0) + 1
+            elif isinstance(n, (ast.Global, ast.Nonlocal)):
+                declared |= set(n.names)
+            elif isinstance(n, ast.ExceptHandler) and n.name:
+                stores[n.name] = stores.get(n.name, 0) + 1
+        own_stores, own_calls = direct[id(fn)]
+        blocked = set(own_stores)
+        for c in own_calls:
+            blocked |= writes(c, frozenset())
+        if '*' in blocked:
+            continue        # calls something we cannot name
+        cands = {}
+        for n in _own_walk(fn):
+            if not (isinstance(n, ast.Assign) and len(n.targets) == 1 and
+                    isinstance(n.targets[0], ast.Name)):
+                continue
+            t = n.targets[0].id
+            ch = _chain(n.value)
+            if ch is None or stores.get(t) != 1 or t in params or \
+                    t in declared:
+                continue
+            root, attrs = ch
+            if root == t:
+                continue
+            if not (root == 'self' and 'self' in params and
+                    not stores.get('self') or
+                    root in params and not stores.get(root) or
+                    root not in params and stores.get(root) == 1):
+                continue
+            if any(a in props or a in blocked for a in attrs):
+                continue
+            if ast.unparse(n) in pinned_stmts:
+                continue
+            # used in a nested scope as well: leave it
+            total = sum(1 for x in ast.walk(fn) if isinstance(x, ast.Name)
+                        and x.id == t and isinstance(x.ctx, ast.Load))
+            own = sum(1 for x in _own_walk(fn) if isinstance(x, ast.Name)
+                      and x.id == t and isinstance(x.ctx, ast.Load))
+            if total != own:
+                continue
+            cands[t] = n
+        if not cands:
+            continue
+        # an alias of an alias: resolve in order of appearance
+        mapping = {}
+        for t, a in sorted(cands.items(), key=lambda kv: (kv[1].lineno,
+                                                          kv[1].col_offset)):
+            v = _Subst(mapping, {}).visit(copy.deepcopy(a.value))
+            mapping[t] = v
+        drop = {id(a) for a in cands.values()}
+
+        def strip(stmts):
+            out = []
+            for s in stmts:
+                if id(s) in drop:
+                    continue
+                for fld in ('body', 'orelse', 'finalbody'):
+                    b = getattr(s, fld, None)
+                    if isinstance(b, list) and b and \
+                            isinstance(b[0], ast.stmt) and not isinstance(
+                                s, (ast.FunctionDef, ast.AsyncFunctionDef,
+                                    ast.ClassDef)):
+                        nb = strip(b)
+                        if not nb and fld == 'body':
+                            nb = [_pass(s)]
+                        setattr(s, fld, nb)
+                if isinstance(s, ast.Try):
+                    for h in s.handlers:
+                        h.body = strip(h.body) or [_pass(s)]
+                out.append(s)
+            return out
+        fn.body = strip(fn.body) or [_pass(fn)]
+        sub = _Subst(mapping, {})
+        fn.body = [sub.visit(s) for s in fn.body]
+        ast.fix_missing_locations(fn)
+        n_done += len(cands)
+    return n_done
+
+
 class Normaliser:
     def __init__(self, trees, known):
         self.trees = trees          # module name -> ast.Module
@@ -467,7 +858,10 @@ class Normaliser:
 
     def _body(self, h, mapping, rename):
         sub = _Subst(mapping, rename)
-        return [sub.visit(copy.deepcopy(s)) for s in h.body]
+        body = [sub.visit(copy.deepcopy(s)) for s in h.body]
+        if any(isinstance(e, ast.Constant) for e in mapping.values()):
+            body = _prune(body, h.body[0])
+        return body
 
     # ------------------------------------------------------------------
     def _stmt(self, s):
@@ -518,6 +912,8 @@ class Normaliser:
             if isinstance(s, (ast.While, ast.For)):
                 raise Fail('temporaries needed in a loop header')
         e = _Subst(mapping, rename).visit(copy.deepcopy(h.body[0].value))
+        if any(isinstance(x, ast.Constant) for x in mapping.values()):
+            e = _Prune().visit(e)
         _replace(s, call, e)
         self.inlined.append((self._cur, h.qual, 'expression'))
         return prelude + [s]
@@ -845,16 +1241,38 @@ def _unroll(fnode, loop):
                     all(simple(x) for x in e.elts)):
                 return None
             rows.append(list(e.elts))
+    # "first match, then stop": the one `break` allowed is the last statement
+    # of an else-less `if` that ends the loop body; the later rows then go
+    # into that if's else branch
+    breaks = [n for st in loop.body for n in ast.walk(st)
+              if isinstance(n, ast.Break)]
+    tail_break = False
+    if breaks:
+        last = loop.body[-1]
+        if len(breaks) == 1 and isinstance(last, ast.If) and \
+                not last.orelse and last.body[-1] is breaks[0]:
+            tail_break = True
+        else:
+            return None
     for st in loop.body:
         for n in ast.walk(st):
             # (a return leaves the function from the unrolled copy exactly
             # as it did from the loop)
-            if isinstance(n, (ast.Break, ast.Continue,
-                              ast.Yield, ast.YieldFrom)):
+            if isinstance(n, (ast.Continue, ast.Yield, ast.YieldFrom)):
                 return None
             if isinstance(n, ast.Name) and n.id in tvars and \
                     isinstance(n.ctx, (ast.Store, ast.Del)):
                 return None
+    if tail_break:
+        rest = []
+        for row in reversed(rows):
+            sub = _Subst(dict(zip(tvars, row)), {})
+            cur = [sub.visit(copy.deepcopy(st)) for st in loop.body]
+            tail = cur[-1]
+            tail.body = tail.body[:-1] or [_pass(tail)]
+            tail.orelse = rest
+            rest = cur
+        return rest
     out = []
     for row in rows:
         sub = _Subst(dict(zip(tvars, row)), {})
